@@ -175,10 +175,11 @@ class PDLInterpFunctions(InterpreterFunctions):
         assert len(args) == 1
         assert isinstance(args[0], Operation)
         attrname = op.constraint_name.data
-        if attrname in args[0].attributes:
-            return (args[0].attributes[attrname],)
-        elif attrname in args[0].properties:
+        # properties first, as Operation.get_attr_or_prop (used by the direct PDL matcher)
+        if attrname in args[0].properties:
             return (args[0].properties[attrname],)
+        elif attrname in args[0].attributes:
+            return (args[0].attributes[attrname],)
         else:
             return (None,)
 
